@@ -22,6 +22,7 @@ pub struct GenConfig {
     pub passes: bool,
     pub toc_permutation: bool,
     pub lz77: bool,
+    pub preview: bool,
     /// force at least this many frames
     pub min_frames: usize,
     pub max_pixels: u64,
@@ -49,6 +50,7 @@ impl GenConfig {
             passes: true,
             toc_permutation: true,
             lz77: true,
+            preview: true,
             max_pixels: 96 * 96,
             safe: true,
         }
@@ -74,6 +76,7 @@ impl GenConfig {
         if off(50) { self.passes = false; }
         if off(50) { self.toc_permutation = false; }
         if off(50) { self.lz77 = false; }
+        if off(40) { self.preview = false; }
         self
     }
 }
@@ -308,12 +311,21 @@ pub fn random_program(rng: &mut Rng, cfg: &GenConfig) -> Program {
         cw_mask: 0,
         cw_seed: rng.next_u64(),
         frames: Vec::new(),
+        preview: None,
     };
 
     for fi in 0..nframes {
         let is_last = fi + 1 == nframes;
         let f = random_frame(rng, cfg, &prog, is_last);
         prog.frames.push(f);
+    }
+    if cfg.preview && rng.chance(1, 6) {
+        let mut pf = random_frame(rng, cfg, &prog, true);
+        pf.kind = FrameKind::Regular;
+        pf.crop = None;
+        pf.is_last = true;
+        pf.duration = 0;
+        prog.preview = Some(Box::new(pf));
     }
     if cfg.upsampling && prog.frames.iter().any(|f| f.upsampling > 1 || f.ec_upsampling.iter().any(|&u| u > 1)) && rng.chance(1, 4) {
         prog.cw_mask = rng.range(1, 7) as u32;
@@ -622,6 +634,7 @@ pub fn minimal_program(width: u32, height: u32, seed: u64) -> Program {
         cw_mask: 0,
         cw_seed: 0,
         frames: vec![f],
+        preview: None,
     }
 }
 
@@ -648,6 +661,15 @@ pub fn extreme_program(rng: &mut Rng) -> Program {
             prog.height = *rng.pick(&[1000u32, 3000]);
         }
         _ => {}
+    }
+    if let Some(pf) = prog.preview.as_mut() {
+        // the preview frame is parsed with the main image's dimensions: no sample data either
+        pf.modular.mode = SampleMode::Empty;
+        pf.modular.transforms.clear();
+        pf.group_size_shift = 3;
+        pf.upsampling = 1;
+        pf.ec_upsampling = vec![1; prog.extra.len()];
+        pf.ec_blend = (0..prog.extra.len()).map(|_| BlendSpec { mode: BlendMode::Replace, alpha_channel: 0, clamp: false, source: 0 }).collect();
     }
     let nframes = prog.frames.len();
     for (fi, f) in prog.frames.iter_mut().enumerate() {
